@@ -248,11 +248,22 @@ func (c *Ctx) panicCallers() {
 				continue
 			}
 			// key middlewares by role, not by the name of the closure/type that implements them
-			keyFn := name
+			keyFns := []string{name}
 			if hasRequestParams(fn) && len(CallsTo(fn, fnServeHTTP)) > 0 {
-				keyFn = pkgOf(fn) + ".middleware"
+				keyFns = []string{pkgOf(fn) + ".middleware"}
+				// a middleware body shared by several packages (a skeleton in the root
+				// package that lock and confirm instantiate with their own check) is
+				// each instantiating package's middleware
+				if owners := c.ownerPkgs(fn); len(owners) > 0 {
+					keyFns = nil
+					for _, o := range owners {
+						keyFns = append(keyFns, o+".middleware")
+					}
+				}
 			}
-			r.Add(Obligation{Rule: "C18.panic", Key: "C18.panic|" + keyFn + "|" + cn, Func: name, Pos: pos, Status: Violated, Detail: "request-time code calls " + cn + ", which panics when the storage layer fails to load the user"})
+			for _, keyFn := range keyFns {
+				r.Add(Obligation{Rule: "C18.panic", Key: "C18.panic|" + keyFn + "|" + cn, Func: name, Pos: pos, Status: Violated, Detail: "request-time code calls " + cn + ", which panics when the storage layer fails to load the user"})
+			}
 		}
 	}
 	r.Extra["panicking_helper_call_sites"] = n
@@ -285,4 +296,39 @@ func (c *Ctx) panicCallers() {
 			}
 		}
 	}
+}
+
+// ownerPkgs: the packages whose functions instantiate closure fn (or one of
+// the closures it is nested in) — for a closure whose lexical parent was a
+// helper inlined into several packages. Empty when fn is instantiated only by
+// its own package.
+func (c *Ctx) ownerPkgs(fn *ssa.Function) []string {
+	chain := map[*ssa.Function]bool{}
+	for f := fn; f != nil; f = f.Parent() {
+		chain[f] = true
+	}
+	if len(chain) < 2 {
+		return nil
+	}
+	set := map[string]bool{}
+	for _, g := range c.P.AllFuncs {
+		if chain[g] {
+			continue
+		}
+		for _, b := range g.Blocks {
+			for _, in := range b.Instrs {
+				mc, ok := in.(*ssa.MakeClosure)
+				if !ok {
+					continue
+				}
+				if f, isF := mc.Fn.(*ssa.Function); isF && chain[f] {
+					set[pkgOf(g)] = true
+				}
+			}
+		}
+	}
+	if len(set) == 0 || (len(set) == 1 && set[pkgOf(fn)]) {
+		return nil
+	}
+	return sortedKeys(set)
 }
